@@ -51,7 +51,7 @@ def main():
                 rc_t, out_t = sh('%s -m pytest -q -p no:cacheprovider --timeout=900 --continue-on-collection-errors 2>&1 | tail -1' % PY, cwd=w, env=env)
                 mm = re.search(r'(\d+) passed', out_t)
                 passed = int(mm.group(1)) if mm else -1
-                rc_d, diff = sh('git diff', cwd=w)
+                rc_d, diff = sh('git diff HEAD', cwd=w)
                 meta.update(demo_with_change_exit=rc_mut, tests_passed_with_change=passed,
                             demo_with_change_tail=out_mut[-600:])
                 ok = rc_clean == 0 and rc_mut == 1 and passed == 109
